@@ -371,7 +371,16 @@ func (ex *Exec) applyContract(cc *Contract, c *ssa.Call, args []Val, calleeName 
 	for _, cl := range cc.Ensures {
 		// ghost/capture parameters of the callee are internal to it: unknown here
 		ex.fillGhosts(cc, cl, m)
-		ex.assumeHere(ex.clauseTerm(cl, m, post, pre, false))
+		t := ex.clauseTerm(cl, m, post, pre, false)
+		if lit := trivialBool(ex.e, t); lit == "false" || strings.TrimSpace(t) == "(not true)" {
+			// with these arguments the callee's contract says it does not return: what follows in
+			// this block is dead code, not a contradiction
+			if ex.deadBlocks == nil {
+				ex.deadBlocks = map[*ssa.BasicBlock]bool{}
+			}
+			ex.deadBlocks[ex.curBlock] = true
+		}
+		ex.assumeHere(t)
 	}
 	ex.setResult(c, res)
 	_ = e
